@@ -156,7 +156,36 @@ def streams(tier, rng, P, only=None, cases=None):
         return None
     s4 = Stream("restshift", cases if (cases and only == "restshift") else mk_rs(), rs_model, rs_judge,
                 lambda c, i, m: i[1].get("tracks1") if i[0] == "ok" and i[1].get("tracks1", "").count(",") >= 1 else None, "program vs rest + program")
-    return [s for s in (s1, s2, s3, s4) if only in (None, s.name)]
+    # ---- in the file: every value re-issued at the point stands before the first remaining note (long tracks whose events were written
+    #      out of time order — chords, a second voice in Sub — and share ticks: only a stable sort keeps the re-issued values in front)
+    from ..smfpy import smf_events
+    def mk_pm():
+        cs = []
+        for i in range(400 if big else 60):
+            ccs = rng.sample([1, 7, 10, 11, 64, 91, 93], rng.randrange(1, 5))
+            head = "TR=%d @%d %s l4 " % (rng.choice([0, 1, 2]), rng.randint(1, 128), " ".join("y%d,%d" % (no, rng.randint(0, 127)) for no in ccs))
+            body = []
+            for _ in range(rng.randrange(6, 14)):
+                body.append(rng.choice(["cdef", "Sub{ l1 'ceg' 'dfa' } l8 cdefgab>c<", "'ce' 'df' 'eg'", "l8 cdefgab", "Sub{ l2 c e } l4 g a b g", "[2 c e g]", "l16 cdefgfed"]))
+            pf = rng.choice(["PlayFrom(2:1:0)", "PlayFrom(1:3:0)", "PlayFrom(3:1:0)", "TIME(2:1:0) ?"])
+            src = head + " ".join(body) + " " + pf
+            cs.append(dict(req="compile %s 0 en lib" % hx(src), src=src, show=src[:300], key="pm%d" % i))
+        return cs
+    def pm_judge(c, impl, m):
+        st, f = impl
+        if st != "ok": return ("violation", "program with a play-from point did not compile: " + st)
+        trs = smf_events(f["bin"])
+        if trs is None: return ("violation", "output is not a MIDI file")
+        for ti, evs in enumerate(trs):
+            seen_note = False
+            for e in evs:
+                if e[1] == "on": seen_note = True
+                elif e[1] in ("cc", "pc") and seen_note:
+                    return ("violation", "track %d: a re-issued controller / program value is written after the first remaining note (tick %d)" % (ti, e[0]))
+        return None
+    s5 = Stream("pfmidi", cases if (cases and only == "pfmidi") else mk_pm(), lambda c, st, f: [], pm_judge, lambda c, i, m: i[1].get("bin") if i[0] == "ok" else None,
+                "re-issued values stand before the first remaining note in the file")
+    return [s for s in (s1, s2, s3, s4, s5) if only in (None, s.name)]
 
 def _len_syn(L):
     """syntax tree (wire form of C04's lenspec) of the few fixed rest lengths used above"""
